@@ -8,6 +8,8 @@ import M3d.Lemmas.SdfTri
 import M3d.Lemmas.SdfTriFull
 import M3d.Lemmas.SdfXform
 import M3d.Lemmas.SdfMesh
+import M3d.Lemmas.SdfTriDeg
+import M3d.Lemmas.SdfTriDeg2
 import Mathlib.Analysis.Real.Sqrt
 import Mathlib.Algebra.Order.Field.Rat
 import Mathlib.Tactic.NormNum
@@ -580,6 +582,193 @@ theorem mesh_sdf_exhaustive_min {E : Env K} (hE : E.Exact) (faces : List (Tri K 
     rw [(V3.dist_facts hE (triClosest E g.1.a g.1.b g.1.c c) c).2] at this
     exact le_trans this ((triangle_closest_optimal hE g.1.a g.1.b g.1.c c h0 h1 h2 h3).2 a b hab)
 
+/-! ## 3-D triangles with a repeated corner (`Triangle.Dist`, `Triangle.Closest`) -/
+
+/-- **The running minimum of `Triangle.Closest` / `Triangle.Dist` started at `math.Inf(1)` is the first strict minimum
+over the three edges** whenever every edge has a distance (over a field: always): the models with the loop spelled out
+(`triClosestN`, `triDistN`; the driver runs them at `Float` on triangles with NaN edge distances) are `triClosest` and
+`triDist`, so `triangle_closest_optimal` is a statement about them too. -/
+theorem triangle_running_min_is_first_min (E : Env K) (t0 t1 t2 c : V3 K) :
+    triClosestN E t0 t1 t2 c = triClosest E t0 t1 t2 c ∧ triDistN E t0 t1 t2 c = triDist E t0 t1 t2 c :=
+  ⟨triClosestN_eq E t0 t1 t2 c, triDistN_eq E t0 t1 t2 c⟩
+
+/-- **`Triangle.Dist` and `Triangle.Closest` of a triangle with a repeated corner (collapsed to a segment) are the
+distance to, and the nearest point of, that segment.**  The model is the float run (`triDistSkip`, `triClosestSkip`):
+the cross product of the sides is exactly `0`, so the normal is `0 · (1/0)`, every `component` is NaN and the in-plane
+shortcut is not taken; the edge of length `0` has `Closest = 0 · (1/0)` and a NaN distance, which fails
+`d < result` and is skipped.  If the three corners are not all the same point:
+* `Dist` is a number `d` (not the `math.Inf(1)` the loop starts from, not NaN), `d ≥ 0`, and it is the distance of the query from `Closest`
+  (`d = ‖Closest - c‖`, `d² = ‖Closest - c‖²`);
+* `Closest` is `Segment.Closest` of a proper edge and lies on an edge of the triangle;
+* **no point of the triangle is closer**: neither a point of any of the three edges (the zero-length one included)
+  nor any point `t0 + u (t1 - t0) + v (t2 - t0)`, `u, v ≥ 0`, `u + v ≤ 1`.
+(Seeded C06-15 folds the edge distances with `math.Min`, which propagates the NaN: `Dist` is NaN.) -/
+theorem triangle_repeated_corner_dist_exact {E : Env K} (hE : E.Exact) (t0 t1 t2 c : V3 K)
+    (hrep : t0 = t1 ∨ t1 = t2 ∨ t2 = t0) (hne : ¬ (t0 = t1 ∧ t1 = t2)) :
+    ∃ d, triDistSkip E t0 t1 t2 c = d ∧ 0 ≤ d ∧
+      d = (triClosestSkip E t0 t1 t2 c).dist E c ∧ d * d = (triClosestSkip E t0 t1 t2 c).sqDist c ∧
+      (∃ f ∈ triSegments t0 t1 t2, f.1 ≠ f.2 ∧ triClosestSkip E t0 t1 t2 c = segClosest3 E f.1 f.2 c ∧
+        ∃ t, 0 ≤ t ∧ t ≤ 1 ∧ triClosestSkip E t0 t1 t2 c = V3.lerp f.1 f.2 t) ∧
+      (∀ t, 0 ≤ t → t ≤ 1 → d * d ≤ (V3.lerp t0 t1 t).sqDist c ∧ d * d ≤ (V3.lerp t1 t2 t).sqDist c ∧
+        d * d ≤ (V3.lerp t2 t0 t).sqDist c) ∧
+      ∀ u v, InTri u v → d * d ≤ (triPoint t0 t1 t2 u v).sqDist c := by
+  have hnan := triNormalNaN_of_repeated t0 t1 t2 hrep
+  obtain ⟨d, p, hscan, hd0, hdd, hdp, hon, hmin⟩ :=
+    edgeScanSkip_spec hE (triSegments t0 t1 t2) c (by simp [triSegments]) (triSegments_cover t0 t1 t2 hne)
+  have hcl : triClosestSkip E t0 t1 t2 c = p := by
+    simp only [triClosestSkip, hnan, if_true, hscan]
+  have hdist : triDistSkip E t0 t1 t2 c = d := by
+    simp only [triDistSkip, hnan, if_true]
+    rw [triDistSkip_scan, hscan]; rfl
+  -- the three edges in the orientation of the triangle
+  have hedge : ∀ p q : V3 K, newSegment3 p q ∈ triSegments t0 t1 t2 → ∀ t, 0 ≤ t → t ≤ 1 →
+      d * d ≤ (V3.lerp p q t).sqDist c := by
+    intro p q hm t h0 h1
+    obtain ⟨t', h0', h1', he⟩ := newSegment3_lerp p q t h0 h1
+    rw [he]; exact hmin _ hm t' h0' h1'
+  have h01 := hedge t0 t1 (by simp [triSegments])
+  have h12 := hedge t1 t2 (by simp [triSegments])
+  have h20 := hedge t2 t0 (by simp [triSegments])
+  refine ⟨d, hdist, hd0, by rw [hcl]; exact hdp, by rw [hcl]; exact hdd, ?_, ?_, ?_⟩
+  · obtain ⟨f, hf, hfnd, hp, ht⟩ := hon
+    exact ⟨f, hf, hfnd, by rw [hcl]; exact hp, by rw [hcl]; exact ht⟩
+  · intro t h0 h1
+    exact ⟨h01 t h0 h1, h12 t h0 h1, h20 t h0 h1⟩
+  · intro u v huv
+    obtain ⟨t, h0, h1, h | h⟩ := triPoint_on_edge_of_repeated t0 t1 t2 hrep u v huv
+    · rw [h]; exact h01 t h0 h1
+    · rw [h]; exact h20 t h0 h1
+
+/-- Non-vacuity and the expected numbers: the triangle `{a, a, b}`, `a = (0,0,0)`, `b = (2,0,0)` over `ℚ` (with the
+exact "square root" of the squares that occur): the query `(1, 3, 4)` is at distance `5` from the point `(1,0,0)` of the
+remaining edge; in `{a, a, a}`, `a = (1,4,4)`, the loops skip all three edges and the answer is the corner itself
+(`triangle_point_dist_exact`): the query `(1, 0, 1)` is at distance `5` from it. -/
+example :
+    triDistSkip exEnvQ ⟨0, 0, 0⟩ ⟨0, 0, 0⟩ ⟨2, 0, 0⟩ ⟨1, 3, 4⟩ = 5 ∧
+    (triClosestSkip exEnvQ ⟨0, 0, 0⟩ ⟨0, 0, 0⟩ ⟨2, 0, 0⟩ ⟨1, 3, 4⟩).x = 1 ∧
+    (triClosestSkip exEnvQ ⟨0, 0, 0⟩ ⟨0, 0, 0⟩ ⟨2, 0, 0⟩ ⟨1, 3, 4⟩).y = 0 ∧
+    (triClosestSkip exEnvQ ⟨0, 0, 0⟩ ⟨0, 0, 0⟩ ⟨2, 0, 0⟩ ⟨1, 3, 4⟩).z = 0 ∧
+    triDistSkip exEnvQ ⟨0, 0, 0⟩ ⟨2, 0, 0⟩ ⟨0, 0, 0⟩ ⟨1, 3, 4⟩ = 5 ∧
+    triDistSkip exEnvQ ⟨2, 0, 0⟩ ⟨0, 0, 0⟩ ⟨0, 0, 0⟩ ⟨1, 3, 4⟩ = 5 ∧
+    triDistSkip exEnvQ ⟨1, 4, 4⟩ ⟨1, 4, 4⟩ ⟨1, 4, 4⟩ ⟨1, 0, 1⟩ = 5 ∧
+    (triClosestSkip exEnvQ ⟨1, 4, 4⟩ ⟨1, 4, 4⟩ ⟨1, 4, 4⟩ ⟨1, 0, 1⟩).y = 4 := by
+  decide +kernel
+
+/-- **A triangle whose three corners are one point `a`** (what is left when vertex merging maps all three vertices of a
+small face to the same vertex): the float run skips all three edges (each has a NaN distance), `Closest` returns the
+untouched start value `t[0] = a` and `Dist` — still `math.Inf(1)` after the loop — returns `c.Dist(t[0])`.  So
+`Dist = ‖c - a‖`, `Closest = a`, the only point of the triangle.  (Before the repair in /repo the start value of `Closest`
+was `Coord3D{}` and `Dist` returned `+Inf`: `MeshToSDF` of a mesh containing such a face reported the distance to the
+origin.) -/
+theorem triangle_point_dist_exact {E : Env K} (hE : E.Exact) (a c : V3 K) :
+    triClosestSkip E a a a c = a ∧ triDistSkip E a a a c = c.dist E a ∧ 0 ≤ triDistSkip E a a a c ∧
+      triDistSkip E a a a c * triDistSkip E a a a c = (triClosestSkip E a a a c).sqDist c ∧
+      ∀ u v, triPoint a a a u v = a := by
+  have hnan := triNormalNaN_of_repeated a a a (Or.inl rfl)
+  have hcl : triClosestSkip E a a a c = a := by
+    simp only [triClosestSkip, hnan, if_true, edgeScanSkip_point]
+  have hd : triDistSkip E a a a c = c.dist E a := by
+    simp only [triDistSkip, hnan, if_true]
+    rw [triDistSkip_scan, edgeScanSkip_point]; rfl
+  refine ⟨hcl, hd, ?_, ?_, triPoint_self a⟩
+  · rw [hd]; exact (V3.dist_facts hE _ _).1
+  · rw [hd, hcl, (V3.dist_facts hE _ _).2]; exact V3.sqDist_comm c a
+
+/-- **`Triangle.Dist` / `Triangle.Closest` of any triangle whose normal is `0 · (1/0)`** (the cross product of the sides
+is exactly `0`: a repeated corner, or three corners on a line) **are the minimum over its three edges**, provided the
+corners are not all the same point: `Dist` is a number `d ≥ 0`, the distance of the query from `Closest`, `Closest` is
+`Segment.Closest` of an edge of positive length, and no point of any of the three edges is closer. -/
+theorem triangle_nan_normal_edges_min {E : Env K} (hE : E.Exact) (t0 t1 t2 c : V3 K)
+    (hnan : triNormalNaN t0 t1 t2 = true) (hne : ¬ (t0 = t1 ∧ t1 = t2)) :
+    ∃ d, triDistSkip E t0 t1 t2 c = d ∧ 0 ≤ d ∧
+      d = (triClosestSkip E t0 t1 t2 c).dist E c ∧ d * d = (triClosestSkip E t0 t1 t2 c).sqDist c ∧
+      (∃ f ∈ triSegments t0 t1 t2, f.1 ≠ f.2 ∧ triClosestSkip E t0 t1 t2 c = segClosest3 E f.1 f.2 c ∧
+        ∃ t, 0 ≤ t ∧ t ≤ 1 ∧ triClosestSkip E t0 t1 t2 c = V3.lerp f.1 f.2 t) ∧
+      ∀ t, 0 ≤ t → t ≤ 1 → d * d ≤ (V3.lerp t0 t1 t).sqDist c ∧ d * d ≤ (V3.lerp t1 t2 t).sqDist c ∧
+        d * d ≤ (V3.lerp t2 t0 t).sqDist c := by
+  obtain ⟨d, p, hscan, hd0, hdd, hdp, hon, hmin⟩ :=
+    edgeScanSkip_spec hE (triSegments t0 t1 t2) c (by simp [triSegments]) (triSegments_cover t0 t1 t2 hne)
+  have hcl : triClosestSkip E t0 t1 t2 c = p := by
+    simp only [triClosestSkip, hnan, if_true, hscan]
+  have hdist : triDistSkip E t0 t1 t2 c = d := by
+    simp only [triDistSkip, hnan, if_true]
+    rw [triDistSkip_scan, hscan]; rfl
+  have hedge : ∀ p q : V3 K, newSegment3 p q ∈ triSegments t0 t1 t2 → ∀ t, 0 ≤ t → t ≤ 1 →
+      d * d ≤ (V3.lerp p q t).sqDist c := by
+    intro p q hm t h0 h1
+    obtain ⟨t', h0', h1', he⟩ := newSegment3_lerp p q t h0 h1
+    rw [he]; exact hmin _ hm t' h0' h1'
+  refine ⟨d, hdist, hd0, by rw [hcl]; exact hdp, by rw [hcl]; exact hdd, ?_, ?_⟩
+  · obtain ⟨f, hf, hfnd, hp, ht⟩ := hon
+    exact ⟨f, hf, hfnd, by rw [hcl]; exact hp, by rw [hcl]; exact ht⟩
+  · intro t h0 h1
+    exact ⟨hedge t0 t1 (by simp [triSegments]) t h0 h1, hedge t1 t2 (by simp [triSegments]) t h0 h1,
+      hedge t2 t0 (by simp [triSegments]) t h0 h1⟩
+
+/-- Non-vacuity: three different corners on a line, `(0,0,0)`, `(2,0,0)`, `(1,0,0)`; the query `(3, 3, 4)` is at
+distance `√(1 + 9 + 16)`, here `26 ↦ 26` under the example's "square root" (only the selection is evaluated). -/
+example : triNormalNaN (⟨0, 0, 0⟩ : V3 ℚ) ⟨2, 0, 0⟩ ⟨1, 0, 0⟩ = true ∧
+    (triClosestSkip exEnvQ ⟨0, 0, 0⟩ ⟨2, 0, 0⟩ ⟨1, 0, 0⟩ ⟨3, 3, 4⟩).x = 2 := by
+  decide +kernel
+
+/-- **Exact mode of the collapsed triangle** (`x.tri3d`): the `sqrt`-free edge scan that the driver runs at `ℚ`
+(`triEdgeScanQ`: zero-length edges skipped, squared distances compared) returns exactly the point `Closest` and the
+square of `Dist` of the float-run model. -/
+theorem triangle_repeated_corner_exact_mode {E : Env K} (hE : E.Exact) (t0 t1 t2 c : V3 K)
+    (hrep : t0 = t1 ∨ t1 = t2 ∨ t2 = t0) (hne : ¬ (t0 = t1 ∧ t1 = t2)) :
+    ∃ d, triDistSkip E t0 t1 t2 c = d ∧ 0 ≤ d ∧
+      triEdgeScanQ t0 t1 t2 c = some (d * d, triClosestSkip E t0 t1 t2 c) := by
+  have hnan := triNormalNaN_of_repeated t0 t1 t2 hrep
+  obtain ⟨d, p, hscan, hd0, _, _, _, _⟩ :=
+    edgeScanSkip_spec hE (triSegments t0 t1 t2) c (by simp [triSegments]) (triSegments_cover t0 t1 t2 hne)
+  have hcl : triClosestSkip E t0 t1 t2 c = p := by
+    simp only [triClosestSkip, hnan, if_true, hscan]
+  have hdist : triDistSkip E t0 t1 t2 c = d := by
+    simp only [triDistSkip, hnan, if_true]
+    rw [triDistSkip_scan, hscan]; rfl
+  refine ⟨d, hdist, hd0, ?_⟩
+  rw [triEdgeScanQ_eq hE, hscan, hcl]; rfl
+
+/-- **A 3-D mesh that contains collapsed slivers still reports the exhaustive minimum** (`MeshToSDF`,
+`GroupedTrianglesToSDF` on the leftovers of vertex merging).  Every face is either non-degenerate or has a repeated
+corner (two equal corners: a segment; three: a point); the leaf evaluation is the float run (`meshLeafSkip`: `Closest` of a sliver skips its
+zero-length edge).  The scan returns `(d, p, i)`: `d ≥ 0`, `d² = ‖p - c‖²`, `p = Closest(c)` of face `i`, and **no point
+of any triangle of the mesh — slivers included — is closer**. -/
+theorem mesh_sdf_exhaustive_min_slivers {E : Env K} (hE : E.Exact) (faces : List (Tri K × Nat)) (c : V3 K)
+    (hne : faces ≠ [])
+    (hfaces : ∀ f ∈ faces,
+      ((M3.ofColumns (f.1.b.sub f.1.a) (f.1.c.sub f.1.a) (triNormal E f.1.a f.1.b f.1.c)).det ≠ 0 ∧
+        0 < (f.1.b.sub f.1.a).normSq ∧ 0 < (f.1.c.sub f.1.b).normSq ∧ 0 < (f.1.a.sub f.1.c).normSq) ∨
+      (f.1.a = f.1.b ∨ f.1.b = f.1.c ∨ f.1.c = f.1.a)) :
+    ∃ d p i, scanWith (meshLeafSkip E c) faces = some (d, p, i) ∧ 0 ≤ d ∧ d * d = p.sqDist c ∧
+      (∃ f ∈ faces, f.2 = i ∧ p = triClosestSkip E f.1.a f.1.b f.1.c c) ∧
+      ∀ g ∈ faces, ∀ a b, InTri a b → d * d ≤ (triPoint g.1.a g.1.b g.1.c a b).sqDist c := by
+  -- per face: `Closest` is at most as far as every point of the face
+  have hface : ∀ g ∈ faces, ∀ a b, InTri a b →
+      (triClosestSkip E g.1.a g.1.b g.1.c c).dist E c * (triClosestSkip E g.1.a g.1.b g.1.c c).dist E c
+        ≤ (triPoint g.1.a g.1.b g.1.c a b).sqDist c := by
+    intro g hg a b hab
+    rw [(V3.dist_facts hE _ _).2]
+    rcases hfaces g hg with ⟨h0, h1, h2, h3⟩ | hrep
+    · rw [triClosestSkip_of_det E _ _ _ c h0]
+      exact (triangle_closest_optimal hE g.1.a g.1.b g.1.c c h0 h1 h2 h3).2 a b hab
+    · by_cases hall : g.1.a = g.1.b ∧ g.1.b = g.1.c
+      · obtain ⟨h1, h2⟩ := hall
+        rw [← h2, ← h1]
+        obtain ⟨hcl, _, _, _, hpt⟩ := triangle_point_dist_exact hE g.1.a c
+        rw [hcl, hpt]
+      · obtain ⟨d, _, _, _, hdd, _, _, htri⟩ := triangle_repeated_corner_dist_exact hE g.1.a g.1.b g.1.c c hrep hall
+        rw [← hdd]; exact htri a b hab
+  obtain ⟨r, hr, ⟨f, hf, hfr, _⟩, hmin⟩ := scanWith_covered (meshLeafSkip E c)
+    (fun f => (triClosestSkip E f.1.a f.1.b f.1.c c).dist E c) faces hne
+    (by intro f _ x hx; unfold meshLeafSkip at hx; cases hx; rfl)
+    (by intro g _ hg; unfold meshLeafSkip at hg; cases hg)
+  unfold meshLeafSkip at hfr
+  cases hfr
+  refine ⟨_, _, _, hr, (V3.dist_facts hE _ _).1, (V3.dist_facts hE _ _).2, ⟨f, hf, rfl, rfl⟩, ?_⟩
+  intro g hg a b hab
+  have hd0 := (V3.dist_facts hE (triClosestSkip E f.1.a f.1.b f.1.c c) c).1
+  exact le_trans (sq_le_of_le hd0 (hmin g hg)) (hface g hg a b hab)
 /-! ## Lipschitz -/
 
 /-- **A true distance function never changes faster than the distance moved**: for a symmetric `d` with the
